@@ -6,6 +6,7 @@ package main
 import (
 	"fmt"
 	"go/token"
+	"go/types"
 	"sort"
 	"strings"
 
@@ -564,30 +565,107 @@ func ruleLineIncludes(w *World, r *Report) {
 		} else {
 			r.add("PASSTHRU", gname+" / zooms", w.Pos(g.Pos()), zst, "a recursive call or point lookup does not receive the zoom parameters unchanged")
 		}
-		// callback invoked on every path from entry to any return
-		stop := map[*ssa.BasicBlock]bool{}
-		ncb := 0
-		instrs(g, func(in ssa.Instruction) {
-			if c, ok := in.(*ssa.Call); ok && c.Common().StaticCallee() == nil && builtinName(c) == "" {
-				if _, isParam := c.Common().Value.(*ssa.Parameter); isParam {
-					stop[c.Block()] = true
-					ncb++
-				}
+		// callback invoked on every path from entry to any return (directly, or by a helper
+		// that receives it and invokes it on all of its own paths)
+		status, ncb := Violated, 0
+		for i, p := range g.Params {
+			if _, isFn := p.Type().Underlying().(*types.Signature); !isFn {
+				continue
 			}
-		})
-		reach := simulate(g.Blocks[0], stop, func(ssa.Value) (bool, bool) { return false, false })
-		skipped := false
-		for _, ret := range returnsOf(g) {
-			if reach[ret.Block()] {
-				skipped = true
+			st, n := invokesOnAllPaths(w, g, i, map[*ssa.Function]bool{})
+			if st == Discharged {
+				status, ncb = Discharged, ncb+n
+			} else if st == Undecided && status != Discharged {
+				status = Undecided
 			}
 		}
-		if ncb == 0 || skipped {
-			r.add("PASSTHRU", gname+" / midpoint reported", w.Pos(g.Pos()), Violated, "an activation of the recursion can return without reporting its midpoint voxel")
-		} else {
+		switch {
+		case ncb > 0 && status == Discharged:
 			r.add("PASSTHRU", gname+" / midpoint reported", w.Pos(g.Pos()), Discharged, "every activation reports its midpoint voxel before returning")
+		case status == Undecided:
+			r.add("PASSTHRU", gname+" / midpoint reported", w.Pos(g.Pos()), Undecided, "the callback is handed to code whose invocation of it could not be followed")
+		default:
+			r.add("PASSTHRU", gname+" / midpoint reported", w.Pos(g.Pos()), Violated, "an activation of the recursion can return without reporting its midpoint voxel")
 		}
 	}
+}
+
+// invokesOnAllPaths: does g invoke its function-typed parameter pi on every path from entry to
+// a return?  Calls of the parameter count, and so do calls of module functions (other than g
+// itself) that receive the parameter and invoke it on all of their paths.  Returns the status
+// (Discharged / Undecided: handed to something that cannot be followed / Violated: a return
+// is reachable without an invocation) and the number of invoking sites.
+func invokesOnAllPaths(w *World, g *ssa.Function, pi int, seen map[*ssa.Function]bool) (Status, int) {
+	if seen[g] || g.Blocks == nil || pi >= len(g.Params) {
+		return Undecided, 0
+	}
+	seen[g] = true
+	defer delete(seen, g)
+	param := ssa.Value(g.Params[pi])
+	stop := map[*ssa.BasicBlock]bool{}
+	n := 0
+	unknown := false
+	instrs(g, func(in ssa.Instruction) {
+		c, ok := in.(*ssa.Call)
+		if !ok {
+			// the callback kept somewhere else (closure, store, go/defer): cannot be followed
+			for _, op := range in.Operands(nil) {
+				if *op == param {
+					if _, isCall := in.(ssa.CallInstruction); !isCall {
+						unknown = true
+					}
+				}
+			}
+			return
+		}
+		if c.Common().StaticCallee() == nil && builtinName(c) == "" && c.Common().Value == param {
+			stop[c.Block()] = true
+			n++
+			return
+		}
+		h := calleeOf(c)
+		for j, a := range c.Call.Args {
+			if a != param {
+				continue
+			}
+			if h == g {
+				continue // the recursion itself
+			}
+			if h == nil || !w.InModule(h) || h.Blocks == nil {
+				unknown = true
+				continue
+			}
+			jj := j
+			if c.Call.IsInvoke() {
+				unknown = true
+				continue
+			}
+			st, _ := invokesOnAllPaths(w, h, jj, seen)
+			switch st {
+			case Discharged:
+				stop[c.Block()] = true
+				n++
+			case Undecided:
+				unknown = true
+			}
+		}
+	})
+	reach := simulate(g.Blocks[0], stop, func(ssa.Value) (bool, bool) { return false, false })
+	for _, ret := range returnsOf(g) {
+		if reach[ret.Block()] {
+			if unknown {
+				return Undecided, n
+			}
+			return Violated, n
+		}
+	}
+	if n == 0 {
+		if unknown {
+			return Undecided, 0
+		}
+		return Violated, 0
+	}
+	return Discharged, n
 }
 
 func resolveNoAlloc(v ssa.Value) ssa.Value { return stripConv(v) }
@@ -766,7 +844,43 @@ func (se *stencilEngine) compute(f *ssa.Function) ([]offset, string) {
 		}
 		for _, in := range b.Instrs {
 			c, ok := in.(*ssa.Call)
-			if !ok || builtinName(c) != "append" {
+			if !ok {
+				continue
+			}
+			if builtinName(c) != "append" {
+				// a private helper that extends a list handed to it by the neighbourhood of an
+				// ID (appendRing(list, id) []string): its own stencil, moved to that ID
+				h := calleeOf(c)
+				if h == nil || h == se.shift || !se.w.InModule(h) || h.Blocks == nil || !isStringSlice(c.Type()) {
+					continue
+				}
+				hasList := false
+				for _, a := range c.Call.Args {
+					if isStringSlice(a.Type()) {
+						hasList = true
+					}
+				}
+				if !hasList {
+					continue // a neighbourhood function: counted where its result is appended
+				}
+				ip := stencilIDParam(h)
+				if ip < 0 || ip >= len(c.Call.Args) {
+					return nil, "a list-extending helper has no single ID parameter (" + describeValue(c) + ")"
+				}
+				inner, why := se.stencilOf(h)
+				if inner == nil {
+					return nil, "list-extending helper: " + why
+				}
+				base, ok := se.offsetOfID(f, c.Call.Args[ip], env)
+				if !ok {
+					return nil, "a list-extending helper is not applied to a shift of the input ID"
+				}
+				for _, io := range inner {
+					outs = append(outs, offset{base[0] + io[0], base[1] + io[1], base[2] + io[2]})
+				}
+				if len(outs) > 200 {
+					return nil, "more than 200 elements"
+				}
 				continue
 			}
 			elems, spread := appendedElems(c)
@@ -833,7 +947,7 @@ func (se *stencilEngine) compute(f *ssa.Function) ([]offset, string) {
 // GetShiftingSpatialID(id', dx, dy, dv) with constant-evaluable offsets.
 func (se *stencilEngine) offsetOfID(f *ssa.Function, v ssa.Value, env map[ssa.Value]int64) (offset, bool) {
 	v = resolve(v)
-	if len(f.Params) > 0 && v == ssa.Value(f.Params[0]) {
+	if ip := stencilIDParam(f); ip >= 0 && v == ssa.Value(f.Params[ip]) {
 		return offset{}, true
 	}
 	c, ok := v.(*ssa.Call)
@@ -853,6 +967,34 @@ func (se *stencilEngine) offsetOfID(f *ssa.Function, v ssa.Value, env map[ssa.Va
 		d[i] = base[i] + k
 	}
 	return d, true
+}
+
+// stencilIDParam: the parameter that carries the input ID: the only string parameter, else the
+// first parameter.
+func stencilIDParam(f *ssa.Function) int {
+	idx, n := -1, 0
+	for i, p := range f.Params {
+		if b, ok := p.Type().Underlying().(*types.Basic); ok && b.Kind() == types.String {
+			idx = i
+			n++
+		}
+	}
+	if n == 1 {
+		return idx
+	}
+	if len(f.Params) > 0 {
+		return 0
+	}
+	return -1
+}
+
+func isStringSlice(t types.Type) bool {
+	sl, ok := t.Underlying().(*types.Slice)
+	if !ok {
+		return false
+	}
+	b, ok := sl.Elem().Underlying().(*types.Basic)
+	return ok && b.Kind() == types.String
 }
 
 func expectedStencil(kind string) []offset {
